@@ -180,6 +180,12 @@ def lbStep (s : DState) : List String → DState × String
         match now.toNat? with
         | some t => (s, if y.pool.any (fun o => !o.b.inWindow t) then "complete" else "n/a")
         | none => (s, "bad-op")
+      | "affconc", [now, _workers, _k] =>
+        -- `affinity` / `hash_stateless`: the pick is a function of the client address and the pool
+        match now.toNat? with
+        | some t => (s, if (y.kind == .iphash || y.kind == .iphashc) && y.pool.any (fun o => !o.b.inWindow t)
+                        then "stable" else "n/a")
+        | none => (s, "bad-op")
       | "rrconc", [_workers, k] =>
         -- `rr_exact`: n*k atomic increments from any position give every backend exactly k picks,
         -- whatever the interleaving of the pickers
@@ -323,7 +329,7 @@ def parsePlugin (p : String) : Option Http.Plugin :=
     | none => none
   | ["log"] => some .logging
   | ["hdr"] => some (.headers [("X-V-App", "Helios")] [("X-V-From", "LB")])
-  | ["auth", k] => some (.auth k)
+  | ["auth", k] => some (.auth (bytesToString (unesc k)))
   | ["pr", id] => id.toNat?.map .probe
   | _ => none
 
